@@ -402,21 +402,22 @@ class Simplifier(pysmt.walkers.DagWalker):
         return self.manager.Times(new_args)
 
     def walk_pow(self, formula: FNode, args: List[FNode], **kwargs) -> FNode:
-        if args[0].is_real_constant():
-            l: Union[int, Fraction] = cast(Fraction, args[0].constant_value())
-            r: Union[int, Fraction] = cast(Union[int, Fraction], args[1].constant_value())
-            return self.manager.Real(l**r)
-
-        if args[0].is_int_constant():
-            l = cast(int, args[0].constant_value())
-            r = cast(int, args[1].constant_value())
-            return self.manager.Int(l**r)
+        if args[0].is_real_constant() or args[0].is_int_constant():
+            # POW is Real-typed (see SimpleTypeChecker.walk_pow), also on
+            # Int operands. Fold exactly: integer exponents only (a
+            # fractional power is irrational in general, and int ** -n
+            # would go through a float), and never 0 ** negative.
+            l = Fraction(cast(Union[int, Fraction], args[0].constant_value()))
+            r = Fraction(cast(Union[int, Fraction], args[1].constant_value()))
+            if r.denominator == 1 and not (l == 0 and r < 0):
+                return self.manager.Real(l ** int(r))
+            return self.manager.Pow(args[0], args[1])
 
         if args[0].is_algebraic_constant():
             from pysmt.constants import Numeral
-            l = cast(Numeral, args[0].constant_value())
-            r = cast(Numeral, args[1].constant_value())
-            return self.manager._Algebraic(Numeral(l**r))
+            la = cast(Numeral, args[0].constant_value())
+            ra = cast(Numeral, args[1].constant_value())
+            return self.manager._Algebraic(Numeral(la**ra))
 
         return self.manager.Pow(args[0], args[1])
 
